@@ -11,8 +11,9 @@ use std::time::{Duration, Instant};
 fn scenarios_for(prop: &str, tier: Tier) -> Vec<Box<dyn Scenario>> {
     match prop {
         "C03" => vec![
-            Box::new(RegistryScenario { minors: vec![14, 17, 20], depth: tier.pick(12, 18) }),
-            Box::new(RegistryScenario { minors: vec![20, 18], depth: tier.pick(12, 16) }),
+            Box::new(RegistryScenario { minors: vec![14, 17, 20], depth: tier.pick(12, 18), crash_points: false }),
+            Box::new(RegistryScenario { minors: vec![20, 18], depth: tier.pick(12, 16), crash_points: false }),
+            Box::new(RegistryScenario { minors: vec![17, 20], depth: tier.pick(7, 12), crash_points: true }),
         ],
         "C04" => {
             let mut v: Vec<Box<dyn Scenario>> = vec![
